@@ -238,6 +238,95 @@ theorem update_ok (s : State) (hI : Inv s) (id : Nat) (st : Option Status) (si :
         simp [step, stepWith, mwUpdate, hf, svcUpdate_reject s id st i frm hf hrej, obsOf]
       rw [hstep]; exact ⟨hI, by simp [absStep]⟩
 
+/-- the task `svcOptUpdate` stores -/
+def optTask (frm : Task) (ev cr : Option String) (off : Option Int) : Task :=
+  { frm with sched := patchSched frm.sched ev cr off }
+
+theorem patch_valid (old : Sched) (ev cr : Option String) (off : Option Int) (v : Bool)
+    (hold : ¬ (old.cron = "" ∧ old.every = "")) (hok : patchOK ev cr v = true) :
+    ¬ ((patchSched old ev cr off).cron = "" ∧ (patchSched old ev cr off).every = "") := by
+  unfold patchOK at hok
+  unfold patchSched
+  cases ev <;> cases cr <;> simp_all
+
+theorem optUpdate_ok (s : State) (hI : Inv s) (id : Nat) (ev cr : Option String) (off : Option Int) (v : Bool) :
+    Inv (step s (.optUpdate id ev cr off v)).1 ∧
+      absStep s.tasks (.optUpdate id ev cr off v) (step s (.optUpdate id ev cr off v)).2
+        = some (step s (.optUpdate id ev cr off v)).1.tasks := by
+  cases hf : findTask id s.tasks with
+  | none =>
+    have hstep : step s (.optUpdate id ev cr off v) =
+        (s, { res := .err .notfound, calls := [], tasks := s.tasks, held := s.held }) := by
+      simp [step, stepWith, mwOptUpdate, hf, obsOf]
+    rw [hstep]; exact ⟨hI, by simp [absStep]⟩
+  | some frm =>
+    obtain ⟨hmem, hid⟩ := findTask_some hf
+    by_cases hacc : patchOK ev cr v = true
+    · have hsvc : svcOptUpdate s id ev cr off v =
+          .ok ({ s with tasks := replaceTask (optTask frm ev cr off) s.tasks }, optTask frm ev cr off) := by
+        simp [svcOptUpdate, hf, hacc, optTask]
+      have hv : ¬ ((optTask frm ev cr off).sched.cron = "" ∧ (optTask frm ev cr off).sched.every = "") :=
+        patch_valid frm.sched ev cr off v (hI.valid frm hmem) hacc
+      have htid : (optTask frm ev cr off).id = frm.id := rfl
+      have hst : (optTask frm ev cr off).status = frm.status := rfl
+      have hex : ∃ x ∈ s.tasks, x.id = (optTask frm ev cr off).id := ⟨frm, hmem, rfl⟩
+      have hsorted := sorted_replace (t := optTask frm ev cr off) hI.sorted
+      have hbound : ∀ x ∈ replaceTask (optTask frm ev cr off) s.tasks, x.id < s.next := by
+        intro x hx
+        rcases mem_replace hx with rfl | hx
+        · exact hI.bound frm hmem
+        · exact hI.bound x hx
+      have hvalid : ∀ x ∈ replaceTask (optTask frm ev cr off) s.tasks,
+          ¬ (x.sched.cron = "" ∧ x.sched.every = "") := by
+        intro x hx
+        rcases mem_replace hx with rfl | hx
+        · exact hv
+        · exact hI.valid x hx
+      have habs : ∀ o : Obs, o.res = .ok →
+          absStep s.tasks (.optUpdate id ev cr off v) o = some (replaceTask (optTask frm ev cr off) s.tasks) := by
+        intro o ho
+        have := insertTask_eq_replace (optTask frm ev cr off) s.tasks hI.sorted hex
+        simp only [absStep, ho, lookup_eq, hf]
+        simpa [optTask] using this
+      by_cases h1 : frm.status = .inactive
+      · have htu : taskUpdated s.held frm (optTask frm ev cr off) = (s.held, [], true) := by
+          rw [taskUpdated_valid _ _ _ hv, if_pos ⟨hst, by rw [hst]; exact h1⟩]
+        have hstep : step s (.optUpdate id ev cr off v) =
+            ({ s with tasks := replaceTask (optTask frm ev cr off) s.tasks },
+             { res := .ok, calls := [], tasks := replaceTask (optTask frm ev cr off) s.tasks, held := s.held }) := by
+          simp [step, stepWith, mwOptUpdate, hf, hsvc, htu, obsOf]
+        rw [hstep]
+        refine ⟨⟨hsorted, hbound, hvalid, ?_⟩, habs _ rfl⟩
+        have hfi : isActive frm = false := (not_active _).mpr h1
+        have hti : isActive (optTask frm ev cr off) = false := (not_active _).mpr (by rw [hst]; exact h1)
+        have hf' : findTask (optTask frm ev cr off).id s.tasks = some frm := by rw [htid, hid]; exact hf
+        simp only []
+        rw [expected_replace_both_inactive _ frm s.tasks hI.sorted hf' hfi hti]
+        exact hI.held
+      · have hn1 : ¬ ((optTask frm ev cr off).status = frm.status ∧ (optTask frm ev cr off).status = .inactive) :=
+          fun h => h1 (by rw [← hst]; exact h.2)
+        have hn2 : ¬ ((optTask frm ev cr off).status ≠ frm.status ∧ (optTask frm ev cr off).status = .inactive) :=
+          fun h => h.1 hst
+        have htu : taskUpdated s.held frm (optTask frm ev cr off) =
+            (upsert (entryOf (optTask frm ev cr off)) s.held, [.schedule (optTask frm ev cr off).id], true) := by
+          rw [taskUpdated_valid _ _ _ hv, if_neg hn1, if_neg hn2]
+        have hstep : step s (.optUpdate id ev cr off v) =
+            ({ s with tasks := replaceTask (optTask frm ev cr off) s.tasks,
+                      held := upsert (entryOf (optTask frm ev cr off)) s.held },
+             { res := .ok, calls := [.schedule (optTask frm ev cr off).id],
+               tasks := replaceTask (optTask frm ev cr off) s.tasks,
+               held := upsert (entryOf (optTask frm ev cr off)) s.held }) := by
+          simp [step, stepWith, mwOptUpdate, hf, hsvc, htu, obsOf]
+        rw [hstep]
+        refine ⟨⟨hsorted, hbound, hvalid, ?_⟩, habs _ rfl⟩
+        have hta : isActive (optTask frm ev cr off) = true := active_of_not_inactive (by rw [hst]; exact h1)
+        simp only [hI.held]
+        exact expected_replace_active _ _ hI.sorted hta hex
+    · have hstep : step s (.optUpdate id ev cr off v) =
+          (s, { res := .err .invalid, calls := [], tasks := s.tasks, held := s.held }) := by
+        simp [step, stepWith, mwOptUpdate, hf, svcOptUpdate, hacc, obsOf]
+      rw [hstep]; exact ⟨hI, by simp [absStep]⟩
+
 theorem delete_ok (s : State) (hI : Inv s) (id : Nat) :
     Inv (step s (.delete id)).1 ∧
       absStep s.tasks (.delete id) (step s (.delete id)).2 = some (step s (.delete id)).1.tasks := by
@@ -319,6 +408,7 @@ theorem step_ok (s : State) (hI : Inv s) (op : Op) :
   cases op with
   | create st si => exact create_ok s hI st si
   | update id st si => exact update_ok s hI id st si
+  | optUpdate id ev cr off v => exact optUpdate_ok s hI id ev cr off v
   | delete id => exact delete_ok s hI id
   | restart k ps => exact restart_ok s hI k ps
   | cancel id run =>
